@@ -595,6 +595,32 @@ func c20prop(ev *evid.Rec) func(rt *rapid.T) {
 					}
 				}
 			}
+			// ... and when the interrupted update was a rename that did not go through, the administrator repeats it, gives the
+			// old login to a new account and edits that one - all without another restart: both accounts are what the next
+			// restart loads
+			if last := ops[n-1]; store == "acct" && last.Op == "rename" && last.Login != "admin" {
+				cur, _ := c20dump(dj)
+				if strings.Contains(cur, fmt.Sprintf("ACCOUNT login=%q ", last.Login)) && !strings.Contains(cur, fmt.Sprintf("ACCOUNT login=%q ", last.NewLogin)) {
+					pwh := "$2a$04$abcdefghijklmnopqrstuuJ3TC0X0yZ0yZ0yZ0yZ0yZ0yZ0yZ0yZ0"
+					seq := c20op{Store: "acct", Op: "seq", Burst: []c20op{
+						{Store: "acct", Op: "rename", Login: last.Login, NewLogin: last.NewLogin, Name: "renamed at the second attempt", Access: []byte{0x10, 0, 0, 0, 0, 0, 0, 0}},
+						{Store: "acct", Op: "create", Login: last.Login, Name: "a new account under the old login", Access: []byte{0x08, 0, 0, 0, 0, 0, 0, 0}, Password: pwh},
+						{Store: "acct", Op: "update", Login: last.Login, Name: "the new account, edited", Access: []byte{0x08, 0, 0, 0, 0, 0, 0, 0}},
+					}}
+					out, _ := exec.Command(helper, dj, js(seq)).CombinedOutput()
+					after, err := c20dump(dj)
+					if err != nil {
+						rt.Fatalf("%s: %s: after the restart, a repeated rename, a new account under the old login and an edit of it: %v\nfiles: %s", desc, where, err, lsDir(dj))
+					}
+					if bytes.Contains(out, []byte("ACK")) {
+						for _, w := range []string{fmt.Sprintf("ACCOUNT login=%q name=%q ", last.NewLogin, "renamed at the second attempt"), fmt.Sprintf("ACCOUNT login=%q name=%q ", last.Login, "the new account, edited")} {
+							if !strings.Contains(after, w) {
+								rt.Fatalf("%s: %s: after the restart the rename %s->%s was repeated, a new account %q created and edited (all acknowledged, no restart in between), but the next restart does not load: %s\n--- loaded\n%s\nfiles: %s", desc, where, last.Login, last.NewLogin, last.Login, w, clip(after), lsDir(dj))
+							}
+						}
+					}
+				}
+			}
 			// ... and the accounts the interrupted update was about can still be removed: an acknowledged deletion is a change
 			// like any other (gone after the next restart), a refused one changes nothing
 			if store == "acct" {
